@@ -20,30 +20,56 @@ KERNELS = [U("FIFO"), U("LIFO"), U("SIRO"), U("random_choice"), U("flatten_list"
            U("Simulation.find_next_active_node"), U("ArrivalNode.find_next_event_date"), U("Node.block_individual"),
            U("Node.change_customer_class"), U("Node.find_next_class_change"), U("Node.decide_class_change")]
 
+ARRIVAL = [U("ArrivalNode.have_event"), U("ArrivalNode.release_individual"), U("ArrivalNode.decide_baulk"),
+           U("ArrivalNode.send_individual"), U("ArrivalNode.batch_size"), U("ArrivalNode.inter_arrival")]
+LOOPS = [U("Simulation.event_and_return_nextnode"), U("Simulation.simulate_until_max_time"),
+         U("Simulation.simulate_until_max_customers"), U("Simulation.wrap_up_servers")]
+STATS = [U("Node.wrap_up_servers"), U("Node.find_server_utilisation")]
+
+TRACKERS = [U("SystemPopulation.change_state_accept"), U("SystemPopulation.change_state_release"), U("SystemPopulation.change_state_block"),
+            U("NodePopulation.change_state_accept"), U("NodePopulation.change_state_release"),
+            U("NodePopulationSubset.change_state_accept"), U("NodePopulationSubset.change_state_release"),
+            U("GroupedNodePopulation.change_state_accept"), U("GroupedNodePopulation.change_state_release"),
+            U("NodeClassMatrix.change_state_accept"), U("NodeClassMatrix.change_state_release"), U("NodeClassMatrix.change_state_classchange"),
+            U("NaiveBlocking.change_state_accept"), U("NaiveBlocking.change_state_block"), U("NaiveBlocking.change_state_release"),
+            U("MatrixBlocking.change_state_accept"), U("StateTracker.timestamp")]
+
+ROUTERS = [U("Direct.next_node"), U("Leave.next_node"), U("Probabilistic.next_node"), U("Cycle.next_node"),
+           U("JoinShortestQueue.next_node"), U("JoinShortestQueue.next_node", "LoadBalancing"), U("ProcessBased.next_node"),
+           U("ProcessBased.next_node_for_rerouting"), U("ProcessBased.next_node_for_jockeying"),
+           U("NetworkRouting.next_node"), U("NetworkRouting.next_node_for_rerouting"), U("NetworkRouting.next_node_for_jockeying"),
+           U("NetworkRouting.next_node", "TransitionMatrix"), U("NodeRouting.next_node_for_jockeying")] + \
+          [U("NodeRouting.next_node_for_rerouting", rc) for rc in ["Probabilistic", "Direct", "Leave", "JoinShortestQueue", "LoadBalancing", "Cycle"]]
+
 PROPS = {
-    "C01": dict(units=TRANSFER),
+    "C01": dict(units=TRANSFER + ARRIVAL[:4]),
     "C02": dict(units=[U("Simulation.find_next_active_node"), U("ArrivalNode.find_next_event_date")] + NEXT_EVENT + START +
-                [U("Node.release"), U("Node.renege"), U("Node.decide_class_change")]),
-    "C03": dict(units=[U("Node.release"), U("Node.renege"), U("Node.finish_service"), U("Node.accept")]),
-    "C04": dict(units=[U("Node.find_free_server"), U("Node.release")] + START),
+                [U("Node.release"), U("Node.renege"), U("Node.decide_class_change")] + LOOPS[:3]),
+    "C03": dict(units=[U("Node.release"), U("Node.renege"), U("Node.finish_service"), U("Node.accept"), U("ArrivalNode.have_event")]),
+    "C04": dict(units=[U("Node.find_free_server"), U("Node.release")] + START + STATS),
     "C05": dict(units=[U("Node.find_free_server"), U("Node.choose_next_customer"), U("Node.accept"),
                        U("Node.begin_service_if_possible_accept"), U("Node.begin_service_if_possible_release")]),
-    "C06": dict(units=[U("Node.release"), U("Node.finish_service"), U("Node.accept"), U("Node.release_blocked_individual")]),
+    "C06": dict(units=[U("Node.release"), U("Node.finish_service"), U("Node.accept"), U("Node.release_blocked_individual"),
+                       U("ArrivalNode.release_individual")]),
     "C07": dict(units=[U("Node.block_individual"), U("Node.finish_service"), U("Node.release"), U("Node.release_blocked_individual"),
                        U("Node.accept"), U("Node.update_next_end_service_with_server"),
                        U("Node.update_next_end_service_without_server"), U("Node.begin_interrupted_individuals_service")]),
     "C08": dict(units=[U("FIFO"), U("LIFO"), U("SIRO"), U("Node.choose_next_customer"), U("Node.begin_service_if_possible_release")]),
     "C09": dict(units=[U("random_choice"), U("Node.change_customer_class"), U("Node.find_next_class_change"),
-                       U("Node.decide_class_change"), U("Node.release"), U("Node.renege"), U("Node.finish_service")]),
-    "C10": dict(units=[U("Distribution._sample"), U("ArrivalNode.find_next_event_date"), U("Node.decide_class_change")] + START),
+                       U("Node.decide_class_change"), U("Node.release"), U("Node.renege"), U("Node.finish_service"),
+                       U("ArrivalNode.have_event")] + ROUTERS),
+    "C10": dict(units=[U("Distribution._sample"), U("ArrivalNode.find_next_event_date"), U("Node.decide_class_change"),
+                       U("ArrivalNode.have_event"), U("ArrivalNode.batch_size"), U("ArrivalNode.inter_arrival")] + START),
     "C11": dict(units=[U("Node.begin_interrupted_individuals_service")]),
     "C12": dict(units=[U("Node.decide_next_event"), U("Node.update_next_end_service_without_server"), U("Node.update_next_event_date"),
                        U("Node.begin_interrupted_individuals_service"), U("Node.begin_service_if_possible_release"),
                        U("Node.release_blocked_individual")]),
-    "C13": dict(units=[U("Node.decide_next_event"), U("Node.update_next_renege_time"), U("Node.update_next_event_date"),
-                       U("Node.renege"), U("Node.begin_service_if_possible_accept"), U("Node.accept")]),
-    "C14": dict(units=KERNELS + NEXT_EVENT + START + TRANSFER),
+    "C13": dict(units=[U("NodeRouting.next_node_for_jockeying"), U("ProcessBased.next_node_for_jockeying"), U("NetworkRouting.next_node_for_jockeying"),
+                       U("Node.decide_next_event"), U("Node.update_next_renege_time"), U("Node.update_next_event_date"),
+                       U("Node.renege"), U("Node.begin_service_if_possible_accept"), U("Node.accept"), U("ArrivalNode.decide_baulk")]),
+    "C14": dict(units=KERNELS + NEXT_EVENT + START + TRANSFER + ARRIVAL + LOOPS + STATS + [U("StateTracker.timestamp")]),
     "C16": dict(units=[U("Simulation.find_next_active_node")]),
-    "C17": dict(units=[U("Node.block_individual"), U("Node.change_customer_class"), U("Node.accept"), U("Node.release"), U("Node.renege")]),
+    "C17": dict(units=[U("Node.block_individual"), U("Node.change_customer_class"), U("Node.accept"), U("Node.release"), U("Node.renege"),
+                       U("Node.finish_service"), U("Node.release_blocked_individual")] + TRACKERS + LOOPS[:3]),
     "C18": dict(units=[U("Node.block_individual")]),
 }
